@@ -27,10 +27,12 @@ type accSpec struct {
 }
 
 type svcSpec struct {
-	Ctor    int
-	Hidden  bool
-	Primary bool
-	LinkTo  []int // indices into the accessory's extra services
+	Custom      bool // service.New(...) with CustomChars characteristics instead of a library constructor
+	CustomChars int
+	Ctor        int
+	Hidden      bool
+	Primary     bool
+	LinkTo      []int // indices into the accessory's extra services
 }
 
 type builtAcc struct {
@@ -53,9 +55,22 @@ func build(specs []accSpec) (*accessory.Container, []builtAcc, error) {
 		}
 		var extras []*service.Service
 		for _, ss := range sp.Services {
-			s, _, err := registry.NewService(registry.Services[ss.Ctor])
-			if err != nil {
-				return nil, nil, err
+			var s *service.Service
+			if ss.Custom {
+				// a service the application composes itself: any number of characteristics, also none
+				s = service.New(fmt.Sprintf("%X", 0xF000+ss.Ctor))
+				for k := 0; k < ss.CustomChars; k++ {
+					ch, _, err := registry.NewChar(registry.Chars[(ss.Ctor+k*5)%len(registry.Chars)])
+					if err != nil {
+						return nil, nil, err
+					}
+					s.AddCharacteristic(ch)
+				}
+			} else {
+				var err error
+				if s, _, err = registry.NewService(registry.Services[ss.Ctor]); err != nil {
+					return nil, nil, err
+				}
 			}
 			s.Hidden, s.Primary = ss.Hidden, ss.Primary
 			extras = append(extras, s)
@@ -246,6 +261,9 @@ func genSpecs(t *rapid.T) []accSpec {
 		ns := rapid.IntRange(0, 6).Draw(t, "nsvc")
 		for j := 0; j < ns; j++ {
 			ss := svcSpec{Ctor: rapid.IntRange(0, len(registry.Services)-1).Draw(t, "svc"), Hidden: rapid.Bool().Draw(t, "hidden"), Primary: rapid.Bool().Draw(t, "primary")}
+			if rapid.IntRange(0, 3).Draw(t, "custom") == 0 {
+				ss.Custom, ss.CustomChars = true, rapid.IntRange(0, 3).Draw(t, "customchars")
+			}
 			nl := rapid.IntRange(0, 2).Draw(t, "nlinks")
 			for l := 0; l < nl; l++ {
 				ss.LinkTo = append(ss.LinkTo, rapid.IntRange(0, ns-1).Draw(t, "link"))
@@ -298,6 +316,16 @@ func TestC14Prop(t *testing.T) {
 		if len(specs) >= 20 {
 			cls = append(cls, "accessories>=20")
 		}
+		for _, sp := range specs {
+			for _, ss := range sp.Services {
+				if ss.Custom && ss.CustomChars == 0 {
+					cls = append(cls, "service-without-characteristics")
+				} else if ss.Custom {
+					cls = append(cls, "custom-service")
+				}
+			}
+		}
+		cls = dedupStrings(cls)
 		stats.Case(stats.Hash(fmt.Sprint(specs)), len(specs) >= 2 && extra >= 1, cls, func() interface{} {
 			return map[string]interface{}{"accessories": len(specs), "extra_services": extra, "first": fmt.Sprintf("%+v", specs[0])}
 		})
@@ -317,6 +345,14 @@ func TestC14EveryConstructor(t *testing.T) {
 			t.Errorf("%s: %v", c.Name, err)
 		}
 	}
+	for i, c := range registry.Accessories {
+		specs := []accSpec{{Ctor: i, Services: []svcSpec{{Custom: true, CustomChars: 0, Ctor: 1, Hidden: true}, {Ctor: 0, Primary: true}, {Custom: true, CustomChars: 2, Ctor: 2}}}}
+		stats.Case(stats.Hash("acc-empty-svc", c.Name), true, []string{"every-accessory-constructor", "service-without-characteristics"}, func() interface{} { return c.Name + " + service without characteristics" })
+		if err := check(specs); err != nil {
+			stats.Fail("TestC14EveryConstructor", err.Error(), c.Name)
+			t.Errorf("%s with an empty custom service: %v", c.Name, err)
+		}
+	}
 	for i, c := range registry.Services {
 		specs := []accSpec{{Ctor: 0}, {Ctor: 0, Services: []svcSpec{{Ctor: i, Primary: true}, {Ctor: i, Hidden: true, LinkTo: []int{0}}}}}
 		stats.Case(stats.Hash("svc", c.Name), true, []string{"every-service-constructor"}, func() interface{} { return c.Name })
@@ -325,4 +361,16 @@ func TestC14EveryConstructor(t *testing.T) {
 			t.Errorf("%s: %v", c.Name, err)
 		}
 	}
+}
+
+func dedupStrings(s []string) []string {
+	seen := map[string]bool{}
+	var out []string
+	for _, x := range s {
+		if !seen[x] {
+			seen[x] = true
+			out = append(out, x)
+		}
+	}
+	return out
 }
